@@ -32,6 +32,11 @@ def run(chk):
     r3(chk, prog)
     r4(chk, prog, m)
     r5(chk, prog)
+    own.rule_leaks(chk, prog, "C05.R6", acquirers=own.NODE_ACQUIRERS, floor=25,
+                   text="no orphaned node: a node reference held by a local of a library function (a constructor's result, a "
+                        "reference taken with json_object_get, the slot a copy was built into) is released, returned or handed to a "
+                        "container on every path to a return, including every failure path, so a failed operation leaves nothing that no "
+                        "owner can reach")
     chk.undecided_clauses += [
         "the exact moment of destruction over arbitrary API call histories (only per-operation release counts and the cascade are decided)",
         "that no memory remains when every reference is released (global accounting is dynamic)",
